@@ -19,6 +19,7 @@ from . import parse as P
 from .interp import (Adt, Cell, Ctx, Explorer, FnItem, Frame, Int, Interp, Opaque, Panic, PathAbort, Ref, Slice, Tup,
                      UNIT, VecV, INT_W, canon_callee, get_path)
 
+LOCK_RE = re.compile(r"(parking_lot::)?(lock_api::)?Mutex::lock")
 DONE, PANIC = "DONE", "PANIC"
 NCHOICE = 8
 NARROW = 8      # unsigned shared counters / registers are stored in NARROW bits; every write carries the
@@ -322,6 +323,7 @@ class System:
         self.stats = {"edge_paths": 0, "edge_queries": 0, "edge_time": 0.0}
         self.guard_types = ("MutexGuard",)
         self.wide = set()                 # (tag, leaf index) of roots that must keep their full width
+        self.reduce_locks = True
         self.interp_fns = set()
         self.models_used = set()
 
@@ -510,6 +512,36 @@ class System:
                 fr.cells[l].v = rebuild(sk, leaves, cm)
         return stack
 
+    def make_hook(self, state):
+        """decides where an edge ends.  Lipton reduction: releasing a mutex is a left mover (executed at the end
+        of the edge that precedes it), acquiring one is a right mover (it opens an edge but does not use up the
+        edge's one visible operation, unless the next visible operation is itself an acquisition)."""
+        def on_visible(interp, stack, callee, model):
+            is_unlock = False
+            if callee == "drop":
+                fr = stack[-1]
+                pl = fr.fn.blocks[fr.bb].term.f["place"]
+                ty = fr.fn.locals.get(pl.local, "")
+                vis = (not pl.projs) and any(g in ty for g in self.guard_types) and fr.cells.get(pl.local) is not None \
+                    and fr.cells[pl.local].v is not None
+                is_unlock = vis
+            else:
+                vis = self.visible(callee)
+            if not vis:
+                return
+            if is_unlock and self.reduce_locks:
+                state["label"].append("unlock")
+                return
+            is_lock = self.reduce_locks and LOCK_RE.fullmatch(callee) is not None
+            if state["ops"] >= 1 or (is_lock and state.get("lock_open")):
+                raise YieldAt()
+            state["label"].append(callee)
+            if is_lock:
+                state["lock_open"] = True
+                return
+            state["ops"] += 1
+        return on_visible
+
     # -- CFA construction
     def build(self, deadline=None):
         for t, th in enumerate(self.threads):
@@ -545,22 +577,7 @@ class System:
                 self.load_roots()
                 state = {"ops": 0, "label": []}
 
-                def on_visible(interp, stack, callee, model):
-                    vis = False
-                    if callee == "drop":
-                        fr = stack[-1]
-                        pl = fr.fn.blocks[fr.bb].term.f["place"]
-                        ty = fr.fn.locals.get(pl.local, "")
-                        vis = (not pl.projs) and any(g in ty for g in self.guard_types) and fr.cells.get(pl.local) is not None \
-                            and fr.cells[pl.local].v is not None
-                    else:
-                        vis = self.visible(callee)
-                    if not vis:
-                        return
-                    if state["ops"] >= 1:
-                        raise YieldAt()
-                    state["ops"] += 1
-                    state["label"].append(callee)
+                on_visible = self.make_hook(state)
                 ctx.on_visible = on_visible
                 panic = None
                 try:
@@ -610,6 +627,101 @@ class System:
         for i, n in enumerate(order):
             n.idx = i
         return order, edges
+
+    # -- replay of a trace by direct, concrete execution of the MIR (independent of the CFA extraction,
+    #    liveness, register allocation, narrowing, partial-order reduction, unrolling and SAT encoding)
+    def replay(self, trace, expect):
+        """expect: 'panic' (the last step must end in a panic whose text contains trace[-1]['panic'] prefix)
+        or 'deadlock' (after the trace no thread is enabled and not all are finished).
+        Returns (reproduced: bool, log lines)."""
+        logl = []
+        cellmap = {("shared", t): c for t, c in self.roots.items()}
+        by_tag = {}
+        for name, sort, const, init, tag, i in self.svars:
+            by_tag.setdefault(tag, []).append(init)
+        for tag, c in self.roots.items():
+            full = self._leaf_widths(self.root_skel[tag])
+            terms = []
+            for init, fw in zip(by_tag.get(tag, []), full):
+                if z3.is_bv(init) and init.size() < fw:
+                    init = z3.simplify(z3.ZeroExt(fw - init.size(), init))
+                terms.append(init)
+            c.v = rebuild(self.root_skel[tag], iter(terms), cellmap)
+        T = self.T
+        stacks = [None] * T
+        done = [False] * T
+        interps = []
+        for t in range(T):
+            it = Interp(self.progs[0], self.models, self.progs[1:])
+            it.enum_discr.update(getattr(self, "extra_discr", {}))
+            it.hooks.update(getattr(self, "hooks", {}))
+            it.system, it.thread = self, t
+            interps.append(it)
+
+        def run_one(t, choices, dry=False):
+            """execute thread t up to (not including) its next visible operation after having executed one;
+            -> ('yield'|'done'|'panic'|'blocked', label, panic text)"""
+            it = interps[t]
+            ex = Explorer(max_steps=200000)
+            ctx = Ctx(ex, ())
+            ctx.thread, ctx.system, ctx.choice_n = t, self, 0
+            ctx.replay_choices = choices
+            state = {"ops": 0, "label": []}
+
+            on_visible = self.make_hook(state)
+            ctx.on_visible = on_visible
+            if stacks[t] is None:
+                th = self.threads[t]
+                stacks[t] = [it.new_frame(th["entry"], list(th["args"]))]
+                state["ops"] = 1
+                state["label"].append("<start>")
+            else:
+                stacks[t][-1].mid = True
+            try:
+                it.exec(ctx, stacks[t], 1)
+                return "done", "+".join(state["label"]), None
+            except YieldAt:
+                return "yield", "+".join(state["label"]), None
+            except Panic as p:
+                return "panic", "+".join(state["label"]), "%s @ %s" % (p.msg, p.where)
+            except PathAbort:
+                return "blocked", "+".join(state["label"]), None
+
+        last = None
+        for st in trace:
+            t = st["thread"]
+            if done[t]:
+                return False, logl + ["step %d: thread %d already finished" % (st["step"], t)]
+            kind, label, ptxt = run_one(t, st.get("choices") or [0] * NCHOICE)
+            logl.append("step %d thread %d: %s -> %s%s" % (st["step"], t, label, kind, (" " + ptxt) if ptxt else ""))
+            if kind == "blocked":
+                return False, logl + ["step %d: operation of thread %d is not enabled in the concrete run" % (st["step"], t)]
+            if label != st["op"]:
+                return False, logl + ["step %d: concrete run executed `%s`, trace says `%s`" % (st["step"], label, st["op"])]
+            if kind == "done":
+                done[t] = True
+            if (kind == "panic") != bool(st.get("panic")):
+                return False, logl + ["step %d: panic mismatch (concrete: %s, trace: %s)" % (st["step"], ptxt, st.get("panic"))]
+            last = (kind, ptxt)
+            if kind == "panic":
+                break
+        if expect == "panic":
+            ok = last is not None and last[0] == "panic"
+            return ok, logl
+        if callable(expect):
+            return bool(expect(self, done)), logl
+        if expect == "deadlock":
+            if all(done):
+                return False, logl + ["all threads finished: no deadlock"]
+            for t in range(T):
+                if done[t]:
+                    continue
+                # (a blocked operation aborts before it changes anything; an enabled one ends the probe)
+                kind, label, ptxt = run_one(t, [0] * NCHOICE)
+                if kind != "blocked":
+                    return False, logl + ["thread %d can still execute `%s`: no deadlock" % (t, label)]
+            return True, logl + ["no unfinished thread has an enabled operation: deadlock reproduced"]
+        return False, logl
 
     # -- encoding
     def encode(self, K, por=True):
@@ -762,6 +874,10 @@ class Unrolling:
                             if s2 == srt and i2 == i:
                                 val = z3.If(f, z3.substitute(term, *sub), val)
                     C.append(nxt["R"][t][(srt, i)] == val)
+            # named atoms for the bits of the choice variables (so that a SAT model gives the choices back)
+            for i in range(NCHOICE):
+                for b in range(8):
+                    C.append(z3.Bool("chbit!%d!%d@%d" % (i, b, k)) == (z3.Extract(b, b, cur["CH"][i]) == 1))
             # schedule variable within range
             if (1 << self.schw) != s.T:
                 C.append(z3.ULT(cur["sch"], z3.BitVecVal(s.T, self.schw)))
@@ -807,7 +923,7 @@ class Unrolling:
     def decide_many(self, queries, timeout_s, tag="bmc", jobs=4):
         """queries: list of (name, formula) -> dict name -> (verdict, trace or None, stats); one bit-blasting"""
         from .. import sat
-        res = sat.decide_many(self.cons(), queries, timeout_s, lambda n: n.startswith("fire!"), tag, jobs)
+        res = sat.decide_many(self.cons(), queries, timeout_s, lambda n: n.startswith("fire!") or n.startswith("chbit!"), tag, jobs)
         out = {}
         for name, (v, true, st) in res.items():
             tr = None
@@ -816,8 +932,9 @@ class Unrolling:
                 for k in range(self.K):
                     for (t, e, f, sub) in self.fire[k]:
                         if f.decl().name() in true:
+                            ch = [sum((1 << b) for b in range(8) if ("chbit!%d!%d@%d" % (i, b, k)) in true) for i in range(NCHOICE)]
                             tr.append({"step": k, "thread": t, "op": e.label, "src": node_name(e.src), "dst": node_name(e.dst),
-                                       "panic": e.panic})
+                                       "panic": e.panic, "choices": ch})
             out[name] = (v, tr, st)
         return out
 
